@@ -147,7 +147,7 @@ class time_limit:
     return False
 
 
-REAL_LIMIT_S = 20          # CPU seconds per source (the largest stdlib file needs ~2)
+REAL_LIMIT_S = 10          # CPU seconds per source (the largest stdlib file needs ~2)
 MEM_LIMIT = 6 << 30        # address-space cap of a worker: a runaway list becomes a MemoryError
 
 
@@ -996,13 +996,13 @@ def graph_real(case):
     tb.incoming.add(nodes[a])
   lst = [nodes[i] for i in ids]
   try:
-    with time_limit(10):
+    with time_limit(3):
       o = m["cfg_utils"].order_nodes(lst)
     r1 = "ok " + " ".join(str(x.id) for x in o)
   except Exception as e:   # pylint: disable=broad-except
     r1 = "err " + e.__class__.__name__
   try:
-    with time_limit(10):
+    with time_limit(3):
       pm = m["cfg_utils"].compute_predecessors(lst)
     r2 = "ok " + ";".join("%d:%s" % (x.id, ",".join(str(p.id) for p in sorted(pm[x], key=lambda q: q.id))) for x in lst)
   except Exception as e:   # pylint: disable=broad-except
@@ -1076,12 +1076,17 @@ def correspond(res, rng, tier):
   samples = []
   pt()   # import the real modules once; the forked workers inherit them
   with multiprocessing.Pool(NPROC, initializer=_worker_init) as pool:
+    aborted = False
     for st, mism, hs, pr, smp in pool.imap_unordered(_worker_sources, jobs):
       stats.update(st)
       prem.update(pr)
       hashes |= hs
       disagreements += mism
       samples += smp
+      if len(disagreements) >= 12:
+        aborted = True      # plenty of material for the search stage; do not burn the budget
+        break
+    res.cov["correspondence_aborted_early"] = aborted
     t1 = time.time()
     # ---- synthetic streams
     opc = pt()["opcodes"]
@@ -1095,10 +1100,14 @@ def correspond(res, rng, tier):
       synth.append(synth_async_template(rng) if i % 4 == 0 else synth_random(rng, cls_ok))
     sst = collections.Counter()
     s_nontriv = set()
-    for st, mism, nt in pool.imap_unordered(_worker_synth, [(c, cls_index) for c in chunks(synth, 400)]):
-      sst.update(st)
-      s_nontriv |= nt
-      disagreements += mism
+    if not aborted:
+      for st, mism, nt in pool.imap_unordered(_worker_synth, [(c, cls_index) for c in chunks(synth, 400)]):
+        sst.update(st)
+        s_nontriv |= nt
+        disagreements += mism
+        if len(disagreements) >= 40:
+          break
+    pool.terminate()
   t2 = time.time()
   # ---- graphs (order_nodes / compute_predecessors called directly)
   gcases = graph_cases(rng, 400 if tier == "quick" else 4000)
@@ -1109,16 +1118,20 @@ def correspond(res, rng, tier):
     glines.append("CP " + body.strip())
   gout = run_driver(glines)
   g_nontriv = 0
+  g_bad = 0
   with multiprocessing.Pool(NPROC, initializer=_worker_init) as pool:
-    greal = pool.map(graph_real, gcases, chunksize=50)
-  for k, case in enumerate(gcases):
-    r1, r2 = greal[k]
-    m1, m2 = gout[2 * k], gout[2 * k + 1]
-    if r1.startswith("ok") and len(r1.split()) > 2:
-      g_nontriv += 1
-    if r1.strip() != m1.strip() or r2 != m2:
-      disagreements.append({"kind": "graph", "ids": case[0], "edges": case[1], "real_order": r1, "model_order": m1,
-                            "real_preds": r2[:500], "model_preds": m2[:500]})
+    for k, (r1, r2) in enumerate(pool.imap(graph_real, gcases, chunksize=10)):
+      case = gcases[k]
+      m1, m2 = gout[2 * k], gout[2 * k + 1]
+      if r1.startswith("ok") and len(r1.split()) > 2:
+        g_nontriv += 1
+      if r1.strip() != m1.strip() or r2 != m2:
+        g_bad += 1
+        disagreements.append({"kind": "graph", "ids": case[0], "edges": case[1], "real_order": r1, "model_order": m1,
+                              "real_preds": r2[:500], "model_preds": m2[:500]})
+        if g_bad >= 10:
+          break
+    pool.terminate()
   t3 = time.time()
   n_eval = stats["code_objects"] + sst["synthetic_streams"] + len(gcases)
   res.cov["evaluations"] = n_eval
